@@ -96,7 +96,18 @@ def _reuse_case(c):
             # the boundary flag may be switched on the SAME object between requests (public set_boundaries, as Integration does)
             g.set_boundaries([flags[step]] * d)
             g.boundary = flags[step]
-        g.setCurrentArea(np.array(s, dtype=float), np.array(e, dtype=float), list(lv))
+        if c.get("caller_arrays") == "inplace":
+            # the caller keeps ONE start array, ONE end array and ONE level list and overwrites them in place for every request (a sweep
+            # `start[0] += h; end[0] += h; grid.setCurrentArea(start, end, levels)`): the grid must answer for the current contents
+            if step == 0 or "S" not in c.get("_state", {}):
+                c.setdefault("_state", {}).update(S=np.array(s, dtype=float), E=np.array(e, dtype=float), L=list(lv))
+            st = c["_state"]
+            st["S"][:] = s
+            st["E"][:] = e
+            st["L"][:] = list(lv)
+            g.setCurrentArea(st["S"], st["E"], st["L"])
+        else:
+            g.setCurrentArea(np.array(s, dtype=float), np.array(e, dtype=float), list(lv))
         p1, w1 = g.get_points_and_weights()
         fresh = _grid(name, a, b, flags[step] if c.get("boundary_constructed") is None else False)
         fresh.setCurrentArea(np.array(s, dtype=float), np.array(e, dtype=float), list(lv))
@@ -114,6 +125,7 @@ def _reuse_case(c):
         if any(not (s[k] - tol * (1 + abs(s[k])) <= p[k] <= e[k] + tol * (1 + abs(e[k]))) for p in p1 for k in range(d)):
             fails.append(fail("points_inside_subbox", "request %d: points %r outside [%r,%r]" % (step, p1.tolist()[:3], s, e), {"family": name}))
             break
+    c.pop("_state", None)
     return {"failures": fails, "canon": core.config_key(c), "outcome": (len(c["requests"]), len(fails)), "nontrivial": True, "evals": len(c["requests"])}
 
 
@@ -327,6 +339,11 @@ def cases(tier):
                     out.append({"config": {"kind": "reuse", "family": name, "d": 1, "a": a, "b": b, "requests": [list(x) for x in seq]}})
         for seq in itertools.product(menu2, repeat=2):
             out.append({"config": {"kind": "reuse", "family": name, "d": 2, "a": [0.0, 0.0], "b": [1.0, 1.0], "requests": [list(x) for x in seq]}})
+        # the same pairs with caller-owned start / end / level objects that are overwritten in place between the requests
+        for seq in itertools.product(menu1b, repeat=2):
+            out.append({"config": {"kind": "reuse", "family": name, "d": 1, "a": [-1.0], "b": [3.0], "requests": [list(x) for x in seq], "caller_arrays": "inplace"}})
+        for seq in itertools.product(menu2, repeat=2):
+            out.append({"config": {"kind": "reuse", "family": name, "d": 2, "a": [0.0, 0.0], "b": [1.0, 1.0], "requests": [list(x) for x in seq], "caller_arrays": "inplace"}})
         if name in ("trapezoidal", "simpson", "clenshaw_curtis"):
             # same object, boundary flag toggled between requests (levels >= 1; the families whose boundary-off mode is supported)
             m1 = [r for r in menu1 if r[0][0] >= 1]
